@@ -135,7 +135,7 @@ Definition xor_byte (a b : byte) : byte := b8 (N.lxor (Byte.to_N a) (Byte.to_N b
 Fixpoint gen_bytes_aux (n : nat) (x : N) : bytes :=
   match n with
   | O => []
-  | S n' => let x' := ((1103515245 * x + 12345) mod 2147483648)%N in b8 (x' / 65536) :: gen_bytes_aux n' x'
+  | S n' => let x' := N.land (1103515245 * x + 12345) 2147483647 in b8 (N.land (N.shiftr x' 16) 255) :: gen_bytes_aux n' x'
   end.
 Definition gen_bytes (seed : N) (n : nat) : bytes := gen_bytes_aux n seed.
 
